@@ -53,6 +53,8 @@ func main() {
 			genLoop(seed, n, os.Args[5])
 		case "proc", "dproc":
 			genProc(os.Args[2], seed, n, os.Args[5])
+		case "recv":
+			genRecv(seed, n, os.Args[5])
 		default:
 			gen(os.Args[2], seed, n, os.Args[5])
 		}
@@ -64,6 +66,8 @@ func main() {
 			oracleLoop(os.Args[3], os.Args[4])
 		case "proc", "dproc":
 			oracleProc(os.Args[2], os.Args[3], os.Args[4])
+		case "recv":
+			oracleRecv(os.Args[3], os.Args[4])
 		default:
 			oracle(os.Args[2], os.Args[3], os.Args[4])
 		}
@@ -213,6 +217,8 @@ func execOps(stream, in, outp string) {
 			out.Line(l.apply(f))
 		case "proc", "dproc":
 			out.Line(pr.apply(f))
+		case "recv":
+			out.Line(applyRecv(f))
 		default:
 			out.Line(s.apply(f))
 		}
